@@ -800,7 +800,13 @@ def run_shard(spec, res):
                     if i % spec['of'] == spec['slice']]
             res.count('features', len(mine))
             for name, n, build, present, absent, frm in mine:
-                for setting in SETTINGS:
+                # second pass: the versions below the feature's once more,
+                # AFTER the versions that have it were served by this
+                # process (what a version exposes does not depend on what
+                # was requested before)
+                below = [x for x in SETTINGS if frm <= minor(x) < n]
+                again = below[-2:] + below[:1] if len(below) > 3 else below
+                for setting in list(SETTINGS) + again:
                     v = minor(setting)
                     if v < frm:
                         continue
